@@ -1254,7 +1254,7 @@ theorem p08_discoverFrom_perm (root : PathParts) (b : Bool) {files files' : List
   · left; exact ⟨e, by simp only [h1], by simp only [h2]⟩
   · right; exact ⟨adjustRoot root files, d, d', by simp only [h1], by simp only [h2], h3, h4⟩
 
-/-! ### 8. the scope exclusions are sufficient -/
+/-! ### 8. the former scope exclusions: `_find_alias`, the inferred return types, the re-exported elements -/
 
 theorem p08_pairwise_cases {α : Type} {R : α → α → Prop} {l : List α} (h : l.Pairwise R) {a b : α}
     (ha : a ∈ l) (hb : b ∈ l) : a = b ∨ R a b ∨ R b a := by
@@ -1285,14 +1285,30 @@ theorem p08_infer_sort_perm {types types' : List AType}
 def p08_aliasHit (full aq : String) : Bool := pyIn full (joinWith "." (dropLast' (splitDot aq)))
 def p08_aliasNm (aq : String) : String := lastD "" (splitDot aq)
 
+/-- the body of the loop `for alias_qname in sorted(qnames)` of `_find_alias` -/
 def p08_aliasStep (full : String) (acc : String × String × Bool) (aq : String) : String × String × Bool :=
   if acc.2.2 then acc
   else if p08_aliasHit full aq then (p08_aliasNm aq, aq, true) else (p08_aliasNm aq, acc.2.1, false)
 
-/-- the choice among the candidate qualified names -/
+/-- the loop over the candidates in the order given -/
+def p08_aliasLoop (full name qname : String) (qs : List String) : String × String :=
+  ((qs.foldl (p08_aliasStep full) (name, qname, false)).1, (qs.foldl (p08_aliasStep full) (name, qname, false)).2.1)
+
+/-- the choice among the candidate qualified names: a single candidate is taken as it is, otherwise
+    the loop runs over the SORTED candidates -/
 def p08_aliasPick (full name qname : String) : List String → String × String
   | [q] => (p08_aliasNm q, q)
-  | qs => ((qs.foldl (p08_aliasStep full) (name, qname, false)).1, (qs.foldl (p08_aliasStep full) (name, qname, false)).2.1)
+  | qs => p08_aliasLoop full name qname (sortStrings qs)
+
+theorem p08_aliasPick_nil (full name qname : String) :
+    p08_aliasPick full name qname [] = p08_aliasLoop full name qname (sortStrings []) := rfl
+
+theorem p08_aliasPick_single (full name qname q : String) :
+    p08_aliasPick full name qname [q] = (p08_aliasNm q, q) := rfl
+
+theorem p08_aliasPick_many (full name qname a b : String) (rest : List String) :
+    p08_aliasPick full name qname (a :: b :: rest) =
+      p08_aliasLoop full name qname (sortStrings (a :: b :: rest)) := rfl
 
 theorem p08_findAlias_eq (env : AEnv) (s : VSt) (typeName : String) :
     findAlias env s typeName =
@@ -1318,7 +1334,11 @@ theorem p08_findAlias_eq (env : AEnv) (s : VSt) (typeName : String) :
         match qs with
         | [] => rfl
         | [q] => rfl
-        | a :: b :: rest => rfl
+        | a :: b :: rest =>
+          simp only []
+          rw [p08_aliasPick_many]
+          generalize sortStrings (a :: b :: rest) = l
+          rfl
 
 theorem p08_aliasFold_done (full : String) (qs : List String) (x y : String) :
     qs.foldl (p08_aliasStep full) (x, y, true) = (x, y, true) := by
@@ -1326,6 +1346,9 @@ theorem p08_aliasFold_done (full : String) (qs : List String) (x y : String) :
   | nil => rfl
   | cons a as ih => rw [List.foldl_cons]; simpa [p08_aliasStep] using ih
 
+/-- the loop returns the FIRST candidate (in the order given) whose module path contains the current
+    module's full name; without such a candidate, the last candidate's name and the qualified name
+    found before the loop -/
 theorem p08_aliasFold (full : String) (qs : List String) : ∀ (n q : String),
     qs.foldl (p08_aliasStep full) (n, q, false) =
       match qs.find? (p08_aliasHit full) with
@@ -1351,10 +1374,14 @@ theorem p08_aliasFold (full : String) (qs : List String) : ∀ (n q : String),
             List.getLast?_eq_getLast_of_ne_nil _
           simp only [List.getLast?_cons_cons, hl, Option.map_some, Option.getD_some]
 
-theorem p08_aliasPick_perm (full name qname : String) {qs qs' : List String} (h : qs ~ qs')
-    (hTie : (qs.filter (p08_aliasHit full)).length < 2)
-    (hNoHit : 2 ≤ qs.length → (∀ a ∈ qs, p08_aliasHit full a = false) →
-        ∀ a ∈ qs, ∀ b ∈ qs, p08_aliasNm a = p08_aliasNm b) :
+/-- the loop over the sorted candidates does not depend on the iteration order of the candidate set,
+    for ANY loop body and start value -/
+theorem p08_sorted_foldl_perm {β : Type} (step : β → String → β) (init : β) {qs qs' : List String}
+    (h : qs ~ qs') : (sortStrings qs).foldl step init = (sortStrings qs').foldl step init := by
+  rw [p08_sortStrings_perm h]
+
+/-- the choice among the candidates is a function of the candidate SET (no side condition left) -/
+theorem p08_aliasPick_perm (full name qname : String) {qs qs' : List String} (h : qs ~ qs') :
     p08_aliasPick full name qname qs = p08_aliasPick full name qname qs' := by
   have hlen := h.length_eq
   match qs, qs', hlen with
@@ -1363,56 +1390,89 @@ theorem p08_aliasPick_perm (full name qname : String) {qs qs' : List String} (h 
     have : q = q' := by simpa using h
     subst this; rfl
   | a :: b :: rest, a' :: b' :: rest', _ =>
-    have e1 : p08_aliasPick full name qname (a :: b :: rest) =
-      (((a :: b :: rest).foldl (p08_aliasStep full) (name, qname, false)).1,
-       ((a :: b :: rest).foldl (p08_aliasStep full) (name, qname, false)).2.1) := rfl
-    have e2 : p08_aliasPick full name qname (a' :: b' :: rest') =
-      (((a' :: b' :: rest').foldl (p08_aliasStep full) (name, qname, false)).1,
-       ((a' :: b' :: rest').foldl (p08_aliasStep full) (name, qname, false)).2.1) := rfl
-    rw [e1, e2, p08_aliasFold, p08_aliasFold]
-    have hlen2 : 2 ≤ (a :: b :: rest).length := by simp
-    have hlen2' : 2 ≤ (a' :: b' :: rest').length := by simp
-    generalize a :: b :: rest = qs at *
-    generalize a' :: b' :: rest' = qs' at *
-    have hf : qs.filter (p08_aliasHit full) ~ qs'.filter (p08_aliasHit full) := h.filter _
-    have hfe : qs.filter (p08_aliasHit full) = qs'.filter (p08_aliasHit full) := by
-      match hq : qs.filter (p08_aliasHit full), hTie with
-      | [], _ => rw [hq] at hf; exact hf.nil_eq
-      | [x], _ => rw [hq] at hf; exact (List.singleton_perm.1 hf)
-      | _ :: _ :: _, hT => simp only [List.length_cons] at hT; omega
-    have hfind : qs.find? (p08_aliasHit full) = qs'.find? (p08_aliasHit full) := by
-      rw [← List.head?_filter, ← List.head?_filter, hfe]
-    rw [← hfind]
-    cases hfd : qs.find? (p08_aliasHit full) with
-    | some x => rfl
-    | none =>
-      simp only
-      have hnone : ∀ a ∈ qs, p08_aliasHit full a = false := by
-        intro a ha
-        have := List.find?_eq_none.1 hfd a ha
-        simpa using this
-      have hl : ∀ (l : List String), 2 ≤ l.length → ∃ x, l.getLast? = some x ∧ x ∈ l := by
-        intro l hl
-        cases l with
-        | nil => simp at hl
-        | cons c cs => exact ⟨_, List.getLast?_eq_getLast_of_ne_nil (List.cons_ne_nil c cs), List.getLast_mem _⟩
-      obtain ⟨x, hx1, hx2⟩ := hl qs hlen2
-      obtain ⟨x', hx1', hx2'⟩ := hl qs' hlen2'
-      rw [hx1, hx1']
-      simp only [Option.map_some, Option.getD_some]
-      rw [hNoHit hlen2 hnone x hx2 x' (h.mem_iff.2 hx2')]
+    rw [p08_aliasPick_many, p08_aliasPick_many, p08_sortStrings_perm h]
 
-/-- `_find_alias` for two iteration orders of `aliases[typeName]`, outside the two tie situations -/
+/-- `_find_alias` for two iteration orders of `aliases[typeName]` -/
 theorem p08_findAlias_perm (env env' : AEnv) (s : VSt) (typeName : String) {qs qs' : List String}
     (h1 : assocGet? env.aliases typeName = some qs) (h2 : assocGet? env'.aliases typeName = some qs')
-    (h : qs ~ qs')
-    (hTie : (qs.filter (p08_aliasHit s.fileFullname)).length < 2)
-    (hNoHit : 2 ≤ qs.length → (∀ a ∈ qs, p08_aliasHit s.fileFullname a = false) →
-        ∀ a ∈ qs, ∀ b ∈ qs, p08_aliasNm a = p08_aliasNm b) :
+    (h : qs ~ qs') :
     findAlias env s typeName = findAlias env' s typeName := by
   rw [p08_findAlias_eq, p08_findAlias_eq, h1, h2]
   cases bottomModule s with
   | none => rfl
-  | some m => simp only [p08_aliasPick_perm _ _ _ h hTie hNoHit]
+  | some m => simp only [p08_aliasPick_perm _ _ _ h]
+
+/-- the whole alias table with permuted candidate lists (same keys in the same order) -/
+def p08_AliasesPerm (al al' : List (String × List String)) : Prop :=
+  List.Forall₂ (fun kv kv' => kv.1 = kv'.1 ∧ kv.2 ~ kv'.2) al al'
+
+theorem p08_AliasesPerm.get : ∀ {al al' : List (String × List String)}, p08_AliasesPerm al al' →
+    ∀ k : String, (assocGet? al k = none ∧ assocGet? al' k = none) ∨
+      ∃ qs qs', assocGet? al k = some qs ∧ assocGet? al' k = some qs' ∧ qs ~ qs'
+  | [], [], _, k => Or.inl ⟨rfl, rfl⟩
+  | (ka, qa) :: l, (kb, qb) :: l', h, k => by
+    unfold p08_AliasesPerm at h
+    rw [List.forall₂_cons] at h
+    obtain ⟨⟨h1, h2⟩, h3⟩ := h
+    simp only at h1 h2
+    subst h1
+    simp only [assocGet?]
+    by_cases e : (ka == k) = true
+    · simp only [e, if_true]
+      exact Or.inr ⟨qa, qb, rfl, rfl, h2⟩
+    · simp only [e, if_false, Bool.false_eq_true]
+      exact p08_AliasesPerm.get (al := l) (al' := l') h3 k
+  | [], _ :: _, h, _ => by cases h
+  | _ :: _, [], h, _ => by cases h
+
+/-- `_find_alias` for two alias tables that differ by the iteration order of every candidate set -/
+theorem p08_findAlias_perm_all (env env' : AEnv) (s : VSt) (typeName : String)
+    (h : p08_AliasesPerm env.aliases env'.aliases) :
+    findAlias env s typeName = findAlias env' s typeName := by
+  rcases h.get typeName with ⟨h1, h2⟩ | ⟨qs, qs', h1, h2, hp⟩
+  · rw [p08_findAlias_eq, p08_findAlias_eq, h1, h2]
+  · exact p08_findAlias_perm env env' s typeName h1 h2 hp
+
+/-! #### the order of the re-exported elements: `elements.sort(key=lambda x: (x.name, x.id))` -/
+
+def p08_nodeKey (n : Node) : String × String := (n.name, n.id)
+
+theorem p08_nodeLe_key (a b : Node) : nodeLe a b = p08_pairLe (p08_nodeKey a) (p08_nodeKey b) := rfl
+
+/-- the sorted element list is a function of the element SET as soon as `(name, id)` identifies an element -/
+theorem p08_sortBy_nodeLe_perm {l l' : List Node} (h : l ~ l')
+    (hinj : ∀ a ∈ l, ∀ b ∈ l, a.name = b.name → a.id = b.id → a = b) :
+    sortBy nodeLe l = sortBy nodeLe l' :=
+  p08_sortBy_perm_invariant nodeLe
+    (fun a b => by rw [p08_nodeLe_key]; exact p08_pairLe_total _ _)
+    (fun a b c => by simp only [p08_nodeLe_key]; exact p08_pairLe_trans _ _ _)
+    (fun a ha b hb h1 h2 => by
+      have e := p08_pairLe_antisymm _ _ (by rwa [p08_nodeLe_key] at h1) (by rwa [p08_nodeLe_key] at h2)
+      simp only [p08_nodeKey, Prod.mk.injEq] at e
+      exact hinj a ha b hb e.1 e.2) h
+
+/-- without any hypothesis: the sequence of `(name, id)` keys of the sorted list is determined -/
+theorem p08_sortBy_nodeLe_perm_key {l l' : List Node} (h : l ~ l') :
+    (sortBy nodeLe l).map p08_nodeKey = (sortBy nodeLe l').map p08_nodeKey :=
+  p08_sortBy_map_key p08_nodeKey nodeLe p08_pairLe p08_nodeLe_key p08_pairLe_total p08_pairLe_trans
+    p08_pairLe_antisymm h
+
+theorem p08_createReexportModules_cons (env : Env) (moduleId : String) (elements : List Node)
+    (rest : List (String × List Node)) :
+    createReexportModules env ((moduleId, elements) :: rest) = (do
+      modify fun s => { s with creatingReexport := false }
+      setModuleId moduleId
+      modify fun s => { s with creatingReexport := true }
+      let ds ← createReexportElements env moduleId (sortBy nodeLe elements)
+      let more ← createReexportModules env rest
+      pure (ds ++ more)) := by
+  rw [createReexportModules]
+
+theorem p08_createReexportModules_perm (env : Env) (moduleId : String) {l l' : List Node}
+    (rest : List (String × List Node)) (h : l ~ l')
+    (hinj : ∀ a ∈ l, ∀ b ∈ l, a.name = b.name → a.id = b.id → a = b) :
+    createReexportModules env ((moduleId, l) :: rest) = createReexportModules env ((moduleId, l') :: rest) := by
+  rw [p08_createReexportModules_cons, p08_createReexportModules_cons, p08_sortBy_nodeLe_perm h hinj]
 
 end StubGen
+
